@@ -38,19 +38,33 @@ NOISE = [
 
 def floors(tier):
     k = 1 if tier == "quick" else 10
-    return {"responses_judged": 80 * k, "metamorphic_pairs": 80 * k, "file_names_judged": 3000 * k, "repeated_key_pairs": 25 * k}
+    return {"responses_judged": 80 * k, "metamorphic_pairs": 80 * k, "file_names_judged": 3000 * k, "repeated_key_pairs": 25 * k, "yaml_feature_cases": 8 * k}
 
 
 def plan(seed, tier):
     n = 100 if tier == "quick" else 1200
-    return [{"id": f"lay-{seed}-{i}", "seed": seed * 100003 + i, "optset": i % len(OPTSETS), "noise": (i // 3) % len(NOISE)}
-            for i in range(n)]
+    cases = [{"id": f"lay-{seed}-{i}", "seed": seed * 100003 + i, "optset": i % len(OPTSETS), "noise": (i // 3) % len(NOISE)}
+             for i in range(n)]
+    # every 7th case carries a service YAML with python experimental features
+    for i, c in enumerate(cases):
+        if i % 7 == 3:
+            c["yaml"] = ["unversioned_disabled", "unversioned_enabled", "unversioned_disabled", "other_features"][(i // 7) % 4]
+    return cases
 
 
 def build_api(case):
     rng = random.Random(case["seed"])
     api = apigen.layout_api(rng, "l%d" % (case["seed"] % 100000))
     api.options = list(OPTSETS[case["optset"]])
+    if case.get("yaml"):
+        # a service YAML whose publishing section switches Python experimental features for this package: the versioned package
+        # must be laid out as always (only the unversioned alias package may go away)
+        feats = {"unversioned_disabled": {"unversioned_package_disabled": True},
+                 "unversioned_enabled": {"unversioned_package_disabled": False},
+                 "other_features": {"protobuf_pythonic_types_enabled": True}}   # (rest_async_io_enabled legitimately adds transport files)[case["yaml"]]
+        pub = {"library_settings": [{"version": api.info["pkg"], "python_settings": {"experimental_features": feats}}]}
+        api.aux["service-yaml"] = ("svc.yaml", apigen.service_yaml(api, publishing=pub))
+        api.tags.add("yaml:" + case["yaml"])
     return api
 
 
@@ -197,6 +211,8 @@ def run_case(case):
                 "sample": {"tags": tags, "opts": api.options}}
     viol, nnames = judge_response(req, api, api.options, g.response)
     counters["responses_judged"] = 1
+    if case.get("yaml"):
+        counters["yaml_feature_cases"] = 1
     counters["file_names_judged"] = nnames
     # metamorphic: unknown / repeated options are ignored
     noise = NOISE[case["noise"]]
